@@ -7,7 +7,7 @@
    Whitelisted as one statement each (meaning given here): the heappop try/except of step() (FxRaiseEmptySchedule /
    FxPop), the callback loop of step() (FxRunCallbacks = [run_callbacks]), the try/except of peek() (FxPeek = [peek]). *)
 From Coq Require Import ZArith QArith Qreduction List Bool Lia.
-From ONL Require Import Kernel.Model Gen.Extracted_kernel.
+From ONL Require Import Kernel.Model Kernel.Trigger Gen.Extracted_kernel.
 Import ListNotations.
 
 (* ---- Environment.schedule ---------------------------------------------------------------------------------- *)
@@ -314,4 +314,86 @@ Lemma bridge_stop_cb e s ev o :
 Proof.
   intros H Ho. unfold stop_cb, stop_cb_fx, gen_StopSimulation_callback. rewrite H, Ho.
   destruct o; cbn; rewrite ?H, ?Ho; reflexivity.
+Qed.
+
+(* ---- Event.trigger (model: Kernel/Trigger.v) ----------------------------------------------------------------------- *)
+Definition trigger_copy_fx (e : evid) (o : outcome) (s : state) (fx : list kernel_fx) : option (state * outcome) :=
+  match fx with
+  | [FxCopyOk; FxCopyValue; FxSchedule prio d] =>
+      Some (schedule e (Z.to_nat prio) d (upd_event e (ev_set_out (Some o)) s), Ok VNone)
+  | _ => None
+  end.
+
+Lemma bridge_trigger e other s ev oev o :
+  get_event e s = Some ev -> get_event other s = Some oev -> out oev = Some o ->
+  trigger_copy_fx e o s gen_Event_trigger = Some (call_trigger e other s).
+Proof. intros He Ho Hout. unfold call_trigger. rewrite He, Ho, Hout. reflexivity. Qed.
+
+(* ---- Process.__init__ and Process.is_alive -------------------------------------------------------------------------- *)
+Definition process_init_fx (codes : list prog) (code : nat) (arg : val) (s : state) (fx : list kernel_fx) : option (state * outcome) :=
+  match fx, nth_error codes code with
+  | [FxRaiseNotGenerator], None => Some (s, Fail (kexn EValue M_not_a_generator))
+  | [FxSetEnv; FxSetCallbacksEmpty; FxSetGenerator; FxNewInitialize], Some pr =>
+      let p := length (procs s) in
+      let '(pe, s1) := new_event (mkEvent (Some []) None false (KProcess p)) s in       (* env, callbacks = [] *)
+      let s3 := fst (init_of_spawn p s1) in                                              (* Initialize(env, self) *)
+      Some (set_procs (procs s3 ++ [mkProc pr (start pr arg) pe (Some (length (events s1)))]) s3, Ok (VEv pe))
+  | _, _ => None
+  end.
+
+Lemma bridge_process_init codes code arg s :
+  process_init_fx codes code arg s (gen_Process_init (match nth_error codes code with Some _ => true | None => false end)) =
+  Some (call_spawn codes code arg s).
+Proof.
+  unfold process_init_fx, gen_Process_init. destruct (nth_error codes code) as [pr|] eqn:E; cbn [negb].
+  - pose proof (spawn_uses_init codes code arg s pr E) as H. cbv zeta in H.
+    destruct (new_event (mkEvent (Some []) None false (KProcess (length (procs s)))) s) as [pe s1]. rewrite H. reflexivity.
+  - unfold call_spawn. rewrite E. reflexivity.
+Qed.
+
+Lemma bridge_is_alive e s ev p :
+  get_event e s = Some ev -> kind ev = KProcess p ->
+  call_query QAlive e s = (s, Ok (vbool (snd (gen_Process_is_alive (negb (is_triggered ev)))))) /\
+  fst (gen_Process_is_alive (negb (is_triggered ev))) = [].
+Proof. intros H K. unfold call_query. rewrite H, K. split; reflexivity. Qed.
+
+(* ---- witnesses ------------------------------------------------------------------------------------------------------ *)
+(* two events, the second triggered with 5: trigger copies its outcome onto the first *)
+Definition ex_trig_state : state :=
+  fst (call_succeed 1%nat (VInt 5) (fst (call_event (fst (call_event (init_state 0)))))).
+Lemma ex_trigger :
+  trigger_copy_fx 0%nat (Ok (VInt 5)) ex_trig_state gen_Event_trigger = Some (call_trigger 0%nat 1%nat ex_trig_state) /\
+  option_map out (get_event 0%nat (fst (call_trigger 0%nat 1%nat ex_trig_state))) = Some (Some (Ok (VInt 5))) /\
+  length (agenda (fst (call_trigger 0%nat 1%nat ex_trig_state))) = 2%nat.
+Proof. repeat split; vm_compute; reflexivity. Qed.
+
+(* a failed event (an Interrupt) at the head of the agenda with a recording callback: step raises it *)
+Lemma ex_succeed_fail_step :
+  let s := fst (call_event (init_state 0)) in
+  (exists ev, get_event 0%nat s = Some ev /\
+     trigger_fx 0%nat (VInt 3) None None s (gen_Event_succeed (is_triggered ev)) = Some (call_succeed 0%nat (VInt 3) s) /\
+     trigger_fx 0%nat (VExn (EUser 1) []) None None s (gen_Event_fail (is_triggered ev) true) =
+       Some (call_fail 0%nat (VExn (EUser 1) []) s)) /\
+  snd (step 1 [] (fst (call_fail 0%nat (VExn (EUser 1) []) s))) = RRaise (EUser 1, []) /\
+  step_fx 1 [] (fst (call_fail 0%nat (VExn (EUser 1) []) s)) (step_gen 1 [] (fst (call_fail 0%nat (VExn (EUser 1) []) s))) =
+    Some (step 1 [] (fst (call_fail 0%nat (VExn (EUser 1) []) s))).
+Proof.
+  cbv zeta. split; [eexists; split; [reflexivity|]; split; reflexivity|].
+  split; [vm_compute; reflexivity|]. apply bridge_step. vm_compute. discriminate.
+Qed.
+
+(* a freshly spawned process (its generator returns at once): alive until its Process event is triggered *)
+Definition ex_prog : prog := mkProg unit (fun _ => tt) (fun _ _ => FRet VNone).
+Definition ex_proc_state : state := fst (call_spawn [ex_prog] 0%nat VNone (init_state 0)).
+Lemma ex_is_alive :
+  exists ev, get_event 0%nat ex_proc_state = Some ev /\ kind ev = KProcess 0%nat /\
+  call_query QAlive 0%nat ex_proc_state = (ex_proc_state, Ok (vbool true)) /\
+  snd (gen_Process_is_alive (negb (is_triggered ev))) = true /\
+  (* after the Initialize step the generator has returned: not alive any more *)
+  fst (call_query QAlive 0%nat (fst (step 1 [ex_prog] ex_proc_state))) = fst (step 1 [ex_prog] ex_proc_state) /\
+  snd (call_query QAlive 0%nat (fst (step 1 [ex_prog] ex_proc_state))) = Ok (vbool false).
+Proof.
+  exists (mkEvent (Some []) None false (KProcess 0%nat)).
+  split; [vm_compute; reflexivity|]. split; [reflexivity|]. split; [vm_compute; reflexivity|].
+  split; [reflexivity|]. split; vm_compute; reflexivity.
 Qed.
